@@ -49,14 +49,16 @@ def plan(tier, seed):
     if tier == "quick":
         return [dict(fam="lit", n=2, nmax=4),
                 dict(fam="lit", n=3, nmax=3, win=(seed, 12)),
-                dict(fam="kw", n=3, nmax=4)]
-    return [dict(fam="lit", n=3, nmax=4), dict(fam="kw", n=3, nmax=5)]
+                dict(fam="kw", n=3, nmax=4), dict(fam="kw2", n=3, nmax=4)]
+    return [dict(fam="lit", n=3, nmax=4), dict(fam="kw", n=3, nmax=5),
+            dict(fam="kw2", n=3, nmax=5)]
 
 
 def units(tier, seed):
     out = []
     for row in plan(tier, seed):
-        ts = texts(row["n"]) if row["fam"] == "lit" else kwtexts(row["n"])
+        ts = texts(row["n"]) if row["fam"] == "lit" else \
+            kw2_pairs(row["n"]) if row["fam"] == "kw2" else kwtexts(row["n"])
         win = row.get("win")
         idxs = list(range(len(ts))) if win is None else list(
             spaces.window(len(ts), win[0], win[1]))
@@ -279,7 +281,113 @@ def kw_unit(u):
     return r
 
 
+def kw2_pairs(n):
+    """pairs (t1, t2) of texts where t1 is a proper prefix of t2"""
+    out = []
+    for t2 in kwtexts(n):
+        for k in range(1, len(t2)):
+            out.append((t2[:k], t2))
+    return out
+
+
+def scan_kw2(ts, kw, s, ic):
+    """two string terminals next to id / any: string and keyword matches
+    first, the longest of them wins"""
+    flags = re.IGNORECASE if ic else 0
+    kwr = re.compile(kw, flags | re.VERBOSE | re.MULTILINE)
+    idr = re.compile(ID, flags)
+    out = []
+    i = 0
+    while i < len(s):
+        cands = []
+        for t in ts:
+            seg = s[i:i + len(t)]
+            if not ((seg.lower() == t.lower()) if ic else (seg == t)):
+                continue
+            m = kwr.match(t)
+            if m and m.group() == t:
+                before = s[i - 1] if i > 0 else " "
+                after = s[i + len(t):i + len(t) + 1] or " "
+                if re.match(r"\w", before) or re.match(r"\w", after):
+                    continue
+                cands.append((t, seg))
+            else:
+                cands.append((t, t))
+        if cands:
+            t, v = max(cands, key=lambda c: len(c[0]))
+            out.append((t, v))
+            i += len(t)
+            continue
+        mm = idr.match(s, i)
+        if mm:
+            out.append(("id", mm.group()))
+            i = mm.end()
+            continue
+        if s[i] != "x":
+            out.append(("any", s[i]))
+            i += 1
+            continue
+        return out, i
+    return out, None
+
+
+def kw2_unit(u):
+    mon = Monitor()
+    judge = Judge(PROP, KNOWN)
+    st = collections.Counter()
+    pairs = kw2_pairs(u["n"])
+    samples = []
+    for pi in u["idx"]:
+        t1, t2 = pairs[pi]
+        q1, _ = quote(t1)
+        q2, _ = quote(t2)
+        for kw in KWREGEX:
+            text = (f"S: E*;\nE: {q1} | {q2} | id | any;\nterminals\n"
+                    f"KEYWORD: /{kw}/;\nid: /{ID}/;\nany: /[^x]/ {{5}};\n")
+            for ic in (False, True):
+                case = {"grammar": text, "text": [t1, t2], "keyword_regex": kw,
+                        "ignore_case": ic, "parser": "lr",
+                        "options": {"ws": "", "build_tree": True}}
+                try:
+                    g = grammar_from_string(text, ignore_case=ic)
+                    p = build("lr", g, mon, tag=(pi, kw, ic), ws="",
+                              build_tree=True)
+                except (Exception, BudgetExceeded) as e:    # noqa: BLE001
+                    judge.deviation("KEYWORD-GRAMMAR-REJECTED", "kw2",
+                                    f"{t1}|{t2}", kw, "grammar rejected",
+                                    {"type": type(e).__name__}, case)
+                    continue
+                alpha = "".join(sorted(set(t2) | {"a"}))[:4]
+                for s_ in spaces.strings(alpha, u["nmax"]):
+                    want, err = scan_kw2((t1, t2), kw, s_, ic)
+                    if err is not None:
+                        continue
+                    o = parse(p, s_, mon)
+                    st["evaluations"] += 1
+                    if t1 in s_:
+                        st["nontrivial"] += 1
+                    got = ([(n, v) for n, v in leaves_of(o.value)] if s_ else []) \
+                        if o.kind == "ok" else o.brief()
+                    if got != want:
+                        judge.deviation(
+                            "KEYWORD-MATCHING", "kw2",
+                            f"{t1}|{t2}|{kw}|ic={int(ic)}", s_,
+                            "token sequence differs from literal matching "
+                            "with the whole-word rule and longest string match",
+                            {"got": str(got)[:200], "want": str(want)[:200]},
+                            dict(case, input=s_))
+        if not samples:
+            samples.append({"texts": [t1, t2]})
+    r = judge.result()
+    r.update(st)
+    r.update(states=len(mon.states), transitions=mon.transitions,
+             traces=mon.traces, samples=samples)
+    return r
+
+
 def run_unit(u):
+    if u["fam"] == "kw2":
+        return kw2_unit(u)
     return lit_unit(u) if u["fam"] == "lit" else kw_unit(u)
 
 
